@@ -24,8 +24,9 @@ REBINDS and some reachable function READS, one of the following must hold.
       visit_Start only.
   (A) reset on every exit:  every store of a non-neutral value (neutral = the initial value in the class / module body)
       lies inside a `try` whose `finally` - not merely an `except <SomeError>` - stores the neutral value again (directly,
-      by a function that does nothing but that, or by restoring a local saved from L before the try), in the storing
-      function itself or at every call site on every call chain from the entry points (greatest fixpoint).
+      by a function that does nothing but that, or by restoring a local saved from L before the try), or is immediately
+      followed by such a try (`L = v; try: .. finally: L = None`), in the storing function itself or at every call site
+      on every call chain from the entry points (greatest fixpoint).
 Locations that are written but never read on any path from an entry point are not observable and accepted.
 In-place mutations of shared containers (memo tables, registries) are NOT part of this clause (see vc.pyshared / C17).
 """
